@@ -21,6 +21,8 @@ const modPath = "github.com/philpearl/plenc"
 // module in /repo, loaded from the current working tree on every run.
 type Prog struct {
 	Repo    string
+	// what the de-extraction pre-pass did (inline.go)
+	InlineNotes []string
 	Fset    *token.FileSet
 	Pkgs    []*packages.Package // module packages only
 	ByPath  map[string]*packages.Package
@@ -60,20 +62,78 @@ type MethodRes struct {
 
 var codecMethods = []string{"Omit", "Read", "New", "WireType", "Descriptor", "Size", "Append"}
 
-func loadProg(repo string) (*Prog, error) {
-	os.Unsetenv("GOWORK")
+func loadPkgs(repo string, mode packages.LoadMode, overlay map[string][]byte) ([]*packages.Package, error) {
 	cfg := &packages.Config{
-		Mode:  packages.LoadAllSyntax,
-		Dir:   repo,
-		Tests: false,
+		Mode:    mode,
+		Dir:     repo,
+		Tests:   false,
+		Overlay: overlay,
 		Env: append(os.Environ(), "GOFLAGS=-mod=mod", "GOPROXY=off", "GOSUMDB=off",
 			"GOTOOLCHAIN=local", "GOWORK=off"),
 	}
-	pkgs, err := packages.Load(cfg, "./...")
+	return packages.Load(cfg, "./...")
+}
+
+func loadProg(repo string) (*Prog, error) {
+	os.Unsetenv("GOWORK")
+	if abs, err := filepath.Abs(repo); err == nil {
+		repo = abs
+	}
+	pkgs, err := loadPkgs(repo, packages.LoadAllSyntax, nil)
 	if err != nil {
 		return nil, fmt.Errorf("packages.Load: %w", err)
 	}
-	p := &Prog{Repo: repo, ByPath: map[string]*packages.Package{}, SSAPkg: map[string]*ssa.Package{},
+	// de-extraction pre-pass (inline.go): undo "extract function" refactorings
+	// in an overlay, so that the rules see the bodies they are anchored on
+	var inlineNotes []string
+	if os.Getenv("PLENCHECK_NOINLINE") == "" && len(pkgs) > 0 {
+		clean := true
+		for _, pk := range pkgs {
+			if len(pk.Errors) > 0 {
+				clean = false
+			}
+		}
+		if clean {
+			light := func(ov map[string][]byte) ([]*packages.Package, *token.FileSet, error) {
+				lp, err := loadPkgs(repo, packages.LoadSyntax, ov)
+				if err != nil {
+					return nil, nil, err
+				}
+				var fs *token.FileSet
+				for _, pk := range lp {
+					for _, e := range pk.Errors {
+						return nil, nil, fmt.Errorf("%s", e.Error())
+					}
+					fs = pk.Fset
+				}
+				return lp, fs, nil
+			}
+			overlay, notes := deextract(repo, pkgs, pkgs[0].Fset, light)
+			inlineNotes = notes
+			if overlay != nil {
+				if os.Getenv("PLENCHECK_DUMP_OVERLAY") != "" {
+					for f, b := range overlay {
+						os.WriteFile(filepath.Join(os.Getenv("PLENCHECK_DUMP_OVERLAY"), filepath.Base(f)), b, 0o644)
+					}
+				}
+				np, err := loadPkgs(repo, packages.LoadAllSyntax, overlay)
+				bad := err != nil
+				if !bad {
+					for _, pk := range np {
+						if len(pk.Errors) > 0 {
+							bad = true
+						}
+					}
+				}
+				if bad {
+					inlineNotes = append(inlineNotes, "de-extraction abandoned: the final overlay does not load; the tree is analysed as written")
+				} else {
+					pkgs = np
+				}
+			}
+		}
+	}
+	p := &Prog{Repo: repo, InlineNotes: inlineNotes, ByPath: map[string]*packages.Package{}, SSAPkg: map[string]*ssa.Package{},
 		FuncDecl: map[*types.Func]*ast.FuncDecl{}, DeclPkg: map[*types.Func]*packages.Package{}}
 	var errs []string
 	for _, pk := range pkgs {
